@@ -1,159 +1,747 @@
-"""C02 — parsing depends only on the bytes; one bad frame = one error (DESIGN §4 C02)."""
+"""C02 — parsing depends only on the bytes; one bad frame = one error (DESIGN §4 C02).
+
+Tier T1: the "network" is the list of cuts of the byte stream; the two stream consumers are driven directly.
+The driver is pluggable (``PATHS``): a later tier pushes the same cases through simulated sockets into the real
+endpoint receive loops by registering another ``(protocol class, make_driver(protocol, world))`` pair.
+
+Oracle (exactly the two clauses of the property):
+ 1. every frame *safely within* the limit  =>  outcome sequence == models.frames.reference_outcomes(stream)
+    for every chunking / path / buffer size, and nothing is left over;
+ 2. otherwise (band / oversized frames present)  =>  models.frames.explains(): an unsafe frame is either accepted
+    as the reference says, or answered with >= 1 LimitOverrunError followed by junk made exclusively of that
+    frame's own bytes, and every frame that starts after its terminator is intact.
+Raw JSON and fixed-size framing have no terminator to resume after: only clause 1 is generated for them, and raw
+JSON only over bracket-balanced documents (garbage without frame structure is not claimed).
+"""
 from __future__ import annotations
 
-from easynetwork.protocol import BufferedStreamProtocol, StreamProtocol
-from easynetwork.serializers.line import StringLineSerializer
+import base64
+import dataclasses
+import hashlib
+from typing import Any, Callable, NamedTuple
 
+from easynetwork.exceptions import DeserializeError
+from easynetwork.protocol import BufferedStreamProtocol, StreamProtocol
+from easynetwork.serializers.base_stream import AutoSeparatedPacketSerializer, FixedSizePacketSerializer
+from easynetwork.serializers.json import JSONSerializer
+from easynetwork.serializers.line import StringLineSerializer
+from easynetwork.serializers.struct import NamedTupleStructSerializer, StructSerializer
+from easynetwork.serializers.wrapper.base64 import Base64EncoderSerializer
+
+from models.frames import (
+    LIMIT_ERROR,
+    Framing,
+    NoFrameStructure,
+    explains,
+    reference_outcomes,
+    safe_payload_max,
+    same_outcomes,
+    split_frames,
+)
 from vsim.chunk import CopyDriver, FillDriver, cuts_to_chunks, gen_cuts, run_stream
 from vsim.runner import Harness
-from vsim.world import Violation, World
+from vsim.world import HarnessError, Violation, World
 
 PROPERTY = "C02"
 LEVEL = "exploration"
 RULE = (
-    "streams of 1-6 terminated frames of kinds {valid, undecodable, empty, band, oversized} for separator-framed serializers; "
-    "chunking families {whole, byte-by-byte, 1 cut, 2 cuts, fixed size, k random cuts, structural cuts around separators}; "
-    "both receive paths; limits 8..96; oracle = frame-by-frame reference decoder"
+    "streams of 1-8 complete frames of kinds {valid, undecodable-but-well-framed, empty, at-the-limit band, oversized} in any order "
+    "for the separator-framed family: StringLineSerializer (LF/CR/CRLF x keep_end x ascii/utf-8/latin-1/utf-16-le), "
+    "JSONSerializer(use_lines=True), Base64EncoderSerializer (separators CRLF, '|', '<>!'; both alphabets; with/without checksum) around JSON, "
+    "a minimal AutoSeparatedPacketSerializer subclass (1/2/3-byte separators incl. a self-overlapping one); payload alphabets contain "
+    "proper prefixes of the separator; plus raw JSON (use_lines=False) over bracket-balanced valid and malformed documents and plain values, "
+    "and fixed-size frames (FixedSizePacketSerializer subclass, StructSerializer, NamedTupleStructSerializer) with undecodable frames. "
+    "limits 8..128; chunking families {whole, byte-by-byte, 1 cut, 2 cuts, fixed size, k random cuts, structural cuts around separators, "
+    "multi-byte characters, escape bytes and frame boundaries}; both receive paths (copy: StreamDataConsumer, fill: "
+    "BufferedStreamDataConsumer with buffer size hints 1..16384 and short fills); oracle = frame-by-frame reference decoder "
+    "(models/frames.py); a run is non-trivial when the stream was fragmented and at least one packet was delivered"
 )
-COMPONENTS_REAL = ["easynetwork.serializers.*", "easynetwork.protocol", "easynetwork.lowlevel._stream consumers", "easynetwork.exceptions.LimitOverrunError"]
+COMPONENTS_REAL = [
+    "easynetwork.serializers.* (line, json, base64 wrapper, struct, base_stream, tools)",
+    "easynetwork.protocol",
+    "easynetwork.lowlevel._stream consumers",
+    "easynetwork.exceptions.LimitOverrunError",
+]
 COMPONENTS_STUB = ["the network: replaced by the list of cuts of the byte stream (T1)"]
-ASSUMPTIONS = ["frames are generated with alphabets that make junk after an oversized frame attributable (DESIGN C02 oracle 2)"]
+ASSUMPTIONS = [
+    "frames that may be rejected for their size use an alphabet disjoint from later frames' so that junk after a rejection is attributable (DESIGN C02 oracle 2)",
+    "one-shot deserialize() of a fresh serializer instance defines what a frame means",
+    "JSONSerializer is not a buffered serializer: the JSON families only have the copy path",
+]
 
 LOW = b"abcdefgh"
 UP = b"XYZW"
+HINTS = [1024, 1, 2, 3, 5, 8, 16, 64, 16384]
 
 
-def _gen_line(world: World):
-    newline = world.pick("newline", ["LF", "CR", "CRLF"])
-    sep = {"LF": b"\n", "CR": b"\r", "CRLF": b"\r\n"}[newline]
-    limit = 8 + world.choose("limit", 89)
-    keep_end = bool(world.choose("keep_end", 2))
-    ser = StringLineSerializer(newline, limit=limit, keep_end=keep_end, encoding="ascii")
+# =================================================================================================== drivers (pluggable)
+def _drv_copy(protocol: Any, world: World):
+    return CopyDriver(protocol, world)
+
+
+def _drv_fill(protocol: Any, world: World):
+    hint = world.pick("hint", HINTS)
+    return FillDriver(protocol, hint, world, fill_mode=world.choose("fill_mode", 2))
+
+
+# path name -> (protocol class wrapped around the serializer, make_driver(protocol, world) -> object with
+# feed(bytes) / out / pending() / held_bytes()).  T2 registers e.g. "sync-copy", "aio-fill" here.
+PATHS: dict[str, tuple[Callable[[Any], Any], Callable[[Any, World], Any]]] = {
+    "copy": (StreamProtocol, _drv_copy),
+    "fill": (BufferedStreamProtocol, _drv_fill),
+}
+
+
+# =================================================================================================== case description
+@dataclasses.dataclass
+class Case:
+    family: str  # key component
+    desc: str  # human-readable serializer configuration
+    cfg: Framing  # reference model configuration
+    make: Callable[[], Any]  # serializer under test (a new instance)
+    stream: bytes
+    frames: list[tuple[str, bytes]]  # (intended kind, payload) -- documentation; the oracle uses the model's split
+    unsafe: list[bool]  # per frame: may be rejected for its size
+    value_bytes: Callable[[Any], bytes | None]  # canonical bytes of a delivered packet (junk attribution)
+    structural: list[int]
+    limit: int | None = None
+    ws_leftover_ok: bool = False
+
+
+def _units_payload(rng, units: list[bytes], n: int) -> bytes:
+    """a payload of at most n bytes (exactly n when some unit has length 1) drawn from `units`"""
+    out = bytearray()
+    ones = [u for u in units if len(u) == 1]
+    while len(out) < n:
+        u = rng.choice(units)
+        if len(out) + len(u) > n:
+            if not ones:
+                break
+            u = rng.choice(ones)
+        out += u
+    return bytes(out)
+
+
+def _sanitize(p: bytes, sep: bytes, filler: bytes) -> bytes:
+    """Make `p` a payload: the only occurrence of `sep` in p+sep is the terminator itself."""
+    guard = 0
+    while True:
+        i = (p + sep).find(sep)
+        if i == len(p):
+            return p
+        # break the occurrence at its last byte that lies inside the payload
+        j = min(i + len(sep) - 1, len(p) - 1)
+        fill = filler[0]
+        if sep[j - i] == fill:
+            fill = filler[1]
+        p = p[:j] + bytes([fill]) + p[j + 1 :]
+        guard += 1
+        if guard > 4 * len(p) + 8:
+            raise HarnessError(f"cannot sanitize payload {p!r} for separator {sep!r}")
+
+
+def _sep_units(alpha: bytes, sep: bytes) -> list[bytes]:
+    units = [bytes([b]) for b in alpha]
+    for k in range(1, len(sep)):
+        units.append(sep[:k])  # proper prefixes of the separator (lone "\r" with CRLF, "<", "<>" …)
+    if len(sep) > 1:
+        units.append(sep[1:])  # and a proper suffix
+    return units
+
+
+@dataclasses.dataclass
+class _SepFamily:
+    """payload factory of one separator-framed serializer configuration"""
+
+    sep: bytes
+    limit: int
+    valid: Callable[[Any, int], bytes | None]  # (rng, maxlen) -> payload of 1..maxlen bytes, or None
+    undecodable: Callable[[Any, int], bytes | None]
+    big: Callable[[Any, int], bytes]  # (rng, n) -> payload of exactly n bytes from the rejected-frame alphabet
+    filler_low: bytes = LOW
+    filler_up: bytes = UP
+    min_len: int = 1  # shortest payload `valid` can produce
+
+
+def _gen_sep_frames(world: World, rng, fam: _SepFamily, max_frames: int = 6) -> list[tuple[str, bytes]]:
+    sep, limit = fam.sep, fam.limit
     seplen = len(sep)
-    safe_max = limit - 2 * seplen - 2  # payload + sep <= limit - sep - 2
-    prefix_chars = sep[:-1]  # proper prefix bytes that may legally appear inside payloads
-    nframes = 1 + world.choose("nframes", 6)
-    frames = []
-    rng = world.sub_rng("filler")
-    for i in range(nframes):
-        kind = world.pick("kind", ["valid", "valid", "undecodable", "empty", "band", "oversized"])
-        if safe_max < 1 and kind in ("valid", "undecodable"):
-            kind = "empty"
-        if kind == "valid":
-            n = 1 + world.choose("len", safe_max)
-            alpha = LOW + prefix_chars
-        elif kind == "undecodable":
-            n = 1 + world.choose("len", safe_max)
-            alpha = LOW + prefix_chars
+    safe_max = safe_payload_max(limit, seplen)
+    nframes = 1 + world.choose("nframes", max_frames)
+    # half of the runs exercise clause 1 (every frame safely within the limit), the other half clause 2
+    kinds = ["valid", "valid", "undecodable", "empty"]
+    if world.choose("with_unsafe_frames", 2):
+        kinds = ["valid", "valid", "undecodable", "empty", "band", "oversized", "band"]
+    frames: list[tuple[str, bytes]] = []
+    for _ in range(nframes):
+        kind = world.pick("kind", kinds)
+        p: bytes | None
+        if kind in ("valid", "undecodable"):
+            if safe_max < 1:
+                kind, p = "empty", b""
+            else:
+                n = 1 + world.choose("len", safe_max)
+                if world.chance("at_edge", 1, 4):
+                    n = safe_max - world.choose("below_edge", min(3, safe_max))
+                if n < fam.min_len <= safe_max:
+                    n = fam.min_len + world.choose("len_above_min", safe_max - fam.min_len + 1)
+                p = (fam.valid if kind == "valid" else fam.undecodable)(rng, n)
+                if p is None:
+                    kind, p = "empty", b""
+                else:
+                    p = _sanitize(p, sep, fam.filler_low)
         elif kind == "empty":
-            n = 0
-            alpha = LOW
+            p = b""
         elif kind == "band":
-            n = safe_max + 1 + world.choose("bandlen", limit + seplen + 1 - safe_max)
-            alpha = UP + prefix_chars
+            n = max(1, safe_max + 1 + world.choose("bandlen", limit + seplen + 1 - safe_max))
+            p = _sanitize(fam.big(rng, n), sep, fam.filler_up)
         else:
             n = limit + seplen + 2 + world.choose("overlen", 40)
-            alpha = UP + prefix_chars
-        payload = bytearray(rng.choice(alpha) for _ in range(n))
-        if kind == "undecodable":
-            payload[rng.randrange(n)] = 0xE9
-        # a payload must not contain the separator, also not across its end
-        p = bytes(payload)
-        while sep in p + sep[:-1] if seplen > 1 else sep in p:
-            p = p.replace(sep, b"a" * seplen) if sep in p else p[:-1] + b"a"
-        if seplen > 1 and (p + sep).find(sep) != len(p):
-            p = p[:-1] + b"a"
-        if kind in ("band", "oversized"):
-            p = bytes(b if b in alpha else UP[0] for b in p)
-            if seplen > 1 and (p + sep).find(sep) != len(p):
-                p = p[:-1] + UP[:1]
+            p = _sanitize(fam.big(rng, n), sep, fam.filler_up)
+        if kind in ("valid", "undecodable", "empty") and len(p) > safe_max and len(p) > 0:
+            raise HarnessError(f"generator produced a {kind} payload of {len(p)} > safe {safe_max}")
         frames.append((kind, p))
-    return ser, sep, limit, keep_end, frames
+    return frames
 
 
-def _reference(ser, sep, keep_end, frames):
-    """frame-by-frame decoding with fresh one-shot semantics"""
-    ref = []
-    for kind, p in frames:
-        try:
-            s = str(p + sep if keep_end else p, "ascii", "strict")
-        except UnicodeError:
-            ref.append(("err", "IncrementalDeserializeError"))
-        else:
-            ref.append(("pkt", s))
-    return ref
-
-
-def _is_junk(o, sep) -> bool:
-    if o[0] == "err":
-        return True
-    if o[0] == "pkt":
-        allowed = set(UP.decode()) | set(sep.decode())
-        return all(ch in allowed for ch in o[1])
-    return False
-
-
-def _match(actual, i, frames, ref, k, sep) -> bool:
-    """Can actual[i:] be explained by frames[k:]?"""
-    if k == len(frames):
-        return i == len(actual)
-    kind = frames[k][0]
-    if kind not in ("band", "oversized"):
-        return i < len(actual) and actual[i] == ref[k] and _match(actual, i + 1, frames, ref, k + 1, sep)
-    # unsafe frame: accepted as-is …
-    if i < len(actual) and actual[i] == ref[k] and _match(actual, i + 1, frames, ref, k + 1, sep):
-        return True
-    # … or rejected for its size: >=1 limit error, junk*, then the rest intact
-    if i < len(actual) and actual[i] == ("err", "LimitOverrunError"):
-        j = i + 1
-        while True:
-            if _match(actual, j, frames, ref, k + 1, sep):
-                return True
-            if j < len(actual) and _is_junk(actual[j], sep):
-                j += 1
-                continue
-            return False
-    return False
-
-
-def _h_line(world: World, path: str) -> None:
-    ser, sep, limit, keep_end, frames = _gen_line(world)
+def _sep_case(family: str, desc: str, cfg: Framing, make, fam: _SepFamily, frames, value_bytes, extra_structural=()) -> Case:
+    sep = fam.sep
     stream = b"".join(p + sep for _, p in frames)
-    # structural cut positions: around every separator occurrence
-    structural = []
+    structural: list[int] = []
     pos = 0
     for _, p in frames:
         pos += len(p)
         structural.extend(range(pos, pos + len(sep) + 1))
         pos += len(sep)
-    cuts = gen_cuts(world, len(stream), structural)
-    chunks = cuts_to_chunks(stream, cuts)
-    ref = _reference(ser, sep, keep_end, frames)
-    if path == "copy":
-        drv = CopyDriver(StreamProtocol(ser), world)
+    structural.extend(extra_structural)
+    safe_max = safe_payload_max(fam.limit, len(sep))
+    unsafe = [len(p) > safe_max for _, p in frames]
+    return Case(family, desc, cfg, make, stream, frames, unsafe, value_bytes, structural, limit=fam.limit)
+
+
+# --------------------------------------------------------------------------------------------------- line
+_LINE_ENC = ["ascii", "utf-8", "latin-1", "utf-16-le"]
+
+
+def _gen_line(world: World) -> Case:
+    newline = world.pick("newline", ["LF", "CR", "CRLF"])
+    sep = {"LF": b"\n", "CR": b"\r", "CRLF": b"\r\n"}[newline]
+    limit = 8 + world.choose("limit", 89)
+    keep_end = bool(world.choose("keep_end", 2))
+    encoding = _LINE_ENC[world.choose("encoding", 6) % 4]  # ascii twice as often, utf-8 twice as often
+    rng = world.sub_rng("filler")
+
+    if encoding == "utf-16-le":
+        good = [bytes([b, 0]) for b in LOW] + [bytes([b, 0]) for b in sep[:-1]] + [b"\xe9\x00", b"\xac\x20"]
+        bad = [b"\x00\xd8", b"a"]  # lone surrogate, odd length
+    elif encoding == "utf-8":
+        good = _sep_units(LOW, sep) + [b"\xc3\xa9", b"\xe2\x82\xac"]
+        bad = [b"\xe9", b"\xe2\x82", b"\xff"]
     else:
-        hint = world.pick("hint", [1024, 1, 2, 3, 5, 8, 16, 64, 16384])
-        drv = FillDriver(BufferedStreamProtocol(ser), hint, world, fill_mode=world.choose("fill_mode", 2))
+        good = _sep_units(LOW, sep)
+        bad = [b"\xe9", b"\xff"] if encoding == "ascii" else []
+
+    def valid(rng, n):
+        p = _units_payload(rng, good, n)
+        return p if p else None
+
+    def undecodable(rng, n):
+        if not bad:
+            return valid(rng, n)
+        b = rng.choice(bad)
+        if len(b) > n:
+            return valid(rng, n)
+        p = _units_payload(rng, good, n - len(b))
+        cut = rng.randrange(len(p) + 1)
+        if encoding == "utf-16-le":
+            cut -= cut % 2
+        return p[:cut] + b + p[cut:]
+
+    def big(rng, n):
+        return _units_payload(rng, _sep_units(UP, sep), n)
+
+    fam = _SepFamily(sep, limit, valid, undecodable, big)
+    frames = _gen_sep_frames(world, rng, fam)
+
+    def make():
+        return StringLineSerializer(newline, limit=limit, keep_end=keep_end, encoding=encoding)
+
+    def value_bytes(v):
+        try:
+            return v.encode(encoding)
+        except (UnicodeError, AttributeError):
+            return None
+
+    cfg = Framing("separator", make, separator=sep, decode_with_separator=keep_end)
+    desc = f"StringLineSerializer({newline!r}, limit={limit}, keep_end={keep_end}, encoding={encoding!r})"
+    # cuts inside multi-byte characters
+    extra = []
+    stream = b"".join(p + sep for _, p in frames)
+    for i, b in enumerate(stream):
+        if b >= 0x80:
+            extra.append(i)
+    return _sep_case("line", desc, cfg, make, fam, frames, value_bytes, extra[:32])
+
+
+# --------------------------------------------------------------------------------------------------- JSON texts
+def _json_text(rng, maxlen: int) -> bytes | None:
+    """compact JSON text of 1..maxlen bytes whose first byte is one of { [ " (self-delimited document)"""
+    if maxlen < 2:
+        return None
+    for _ in range(8):
+        n = rng.randint(2, maxlen)
+        shape = rng.choice(["str", "list", "obj", "nested", "uni", "esc", "brace-in-str", "empty"])
+        if shape == "str":
+            t = b'"' + bytes(rng.choice(LOW) for _ in range(n - 2)) + b'"'
+        elif shape == "list":
+            items = []
+            while len(b"[" + b",".join(items) + b"]") < n - 2:
+                items.append(str(rng.randint(0, 999)).encode())
+            t = b"[" + b",".join(items) + b"]"
+        elif shape == "obj":
+            t = b'{"' + bytes([rng.choice(LOW)]) + b'":"' + bytes(rng.choice(LOW) for _ in range(max(0, n - 8))) + b'"}'
+        elif shape == "nested":
+            t = b'{"a":[1,{"b":"' + bytes(rng.choice(LOW) for _ in range(max(0, n - 18))) + b'"}]}'
+        elif shape == "uni":
+            t = b'["' + b"\xc3\xa9" * max(1, (n - 4) // 2) + b'"]'
+        elif shape == "esc":
+            t = b'"' + rng.choice([b'a\\"b', b"\\\\", b'\\"', b"c\\\\\\\"d", b"\\u00e9", b"\\n"]) + b'"'
+        elif shape == "brace-in-str":
+            t = rng.choice([b'{"a":"]"}', b'["}{"]', b'"}{"', b'{"[":"\\"}"}', b'["a]","[b"]'])
+        else:
+            t = rng.choice([b"[]", b"{}", b'""', b"[[]]", b'{"a":{}}'])
+        if 2 <= len(t) <= maxlen:
+            return t
+    return rng.choice([b"[]", b"{}", b'""'])
+
+
+_BAD_BALANCED = [
+    b'{"a":}',
+    b"[1,,2]",
+    b'{"k":"\xff"}',
+    b'"ab\xfe"',
+    b"[tru]",
+    b'{"a" 1}',
+    b"[1 2]",
+    b"{,}",
+    b'["\xc3"]',
+    b'{"a":1,}',
+    b"[01]",
+    b'"a\x01b"',
+    b'{"a":[1,{"b":}]}',
+    b'["\\x"]',
+    b'[{"a":"\xe9"}]',
+]
+
+
+def _json_bad_balanced(rng, maxlen: int) -> bytes | None:
+    """malformed but bracket-balanced document of <= maxlen bytes"""
+    cands = [t for t in _BAD_BALANCED if len(t) <= maxlen]
+    if not cands:
+        return None
+    t = rng.choice(cands)
+    # grow by wrapping: still balanced, still malformed
+    for _ in range(rng.randrange(4)):
+        w = rng.choice([(b"[", b"]"), (b'{"w":', b"}"), (b"[1,", b"]")])
+        if len(w[0]) + len(t) + len(w[1]) > maxlen:
+            break
+        t = w[0] + t + w[1]
+    return t
+
+
+_BAD_LINE_ONLY = [b'{"a":1', b"abc", b"}{", b'"open', b"[1,2", b"\xff\xfe", b"1 2", b"nul"]
+
+
+def _json_up_text(rng, n: int) -> bytes:
+    """rejected-frame alphabet for JSON lines: a JSON string of UP letters (valid if accepted) or bare UP letters"""
+    if n >= 2 and rng.randrange(2):
+        return b'"' + bytes(rng.choice(UP) for _ in range(n - 2)) + b'"'
+    return bytes(rng.choice(UP) for _ in range(n))
+
+
+def _json_value_bytes(v: Any) -> bytes | None:
+    import json
+
+    try:
+        return json.dumps(v, ensure_ascii=False, separators=(",", ":")).encode("utf-8")
+    except (TypeError, ValueError, UnicodeError):
+        return None
+
+
+# --------------------------------------------------------------------------------------------------- JSON lines
+def _gen_jsonl(world: World) -> Case:
+    limit = 8 + world.choose("limit", 89)
+    sep = b"\n"
+    rng = world.sub_rng("filler")
+
+    def valid(rng, n):
+        if rng.randrange(4) == 0:
+            t = rng.choice([b"1", b"-12", b"null", b"true", b"3.5", b"false", b"1e3"])
+            return t if len(t) <= n else (b"7" if n >= 1 else None)
+        return _json_text(rng, n) or (b"7" if n >= 1 else None)
+
+    def undecodable(rng, n):
+        if rng.randrange(2):
+            t = _json_bad_balanced(rng, n)
+            if t is not None:
+                return t
+        cands = [t for t in _BAD_LINE_ONLY if len(t) <= n]
+        return rng.choice(cands) if cands else None
+
+    fam = _SepFamily(sep, limit, valid, undecodable, _json_up_text)
+    frames = _gen_sep_frames(world, rng, fam)
+
+    def make():
+        return JSONSerializer(limit=limit, use_lines=True)
+
+    cfg = Framing("separator", make, separator=sep)
+    extra = [i + 1 for i, b in enumerate(b"".join(p + sep for _, p in frames)) if b == 0x5C or b >= 0x80]
+    return _sep_case("jsonl", f"JSONSerializer(limit={limit}, use_lines=True)", cfg, make, fam, frames, _json_value_bytes, extra[:32])
+
+
+# --------------------------------------------------------------------------------------------------- base64 around JSON
+def _gen_b64(world: World) -> Case:
+    sep = world.pick("separator", [b"\r\n", b"|", b"<>!"])
+    checksum = bool(world.choose("checksum", 2))
+    alphabet = world.pick("alphabet", ["urlsafe", "standard"])
+    limit = (64 if checksum else 16) + world.choose("limit", 65)
+    rng = world.sub_rng("filler")
+    enc = base64.urlsafe_b64encode if alphabet == "urlsafe" else base64.standard_b64encode
+
+    def token(inner: bytes) -> bytes:
+        if checksum:
+            inner = inner + hashlib.sha256(inner).digest()
+        return enc(inner)
+
+    def max_inner(n: int) -> int:  # largest inner JSON length whose token fits into n bytes
+        raw = (n // 4) * 3
+        return raw - (32 if checksum else 0)
+
+    def sprinkle(rng, t: bytes, n: int) -> bytes:
+        """insert proper prefixes of the separator: not in the base64 alphabet, discarded by the lenient decoder"""
+        units = [sep[:k] for k in range(1, len(sep))]
+        while units and len(t) < n and rng.randrange(3) == 0:
+            u = rng.choice(units)
+            if len(t) + len(u) > n:
+                break
+            cut = rng.randrange(len(t) + 1)
+            t = t[:cut] + u + t[cut:]
+        return t
+
+    def valid(rng, n):
+        m = max_inner(n)
+        if m < 1:
+            return None
+        inner = rng.choice([b"1", b"7", b"0"]) if m < 2 or rng.randrange(5) == 0 else (_json_text(rng, m) or b"7")
+        return sprinkle(rng, token(inner), n)
+
+    def undecodable(rng, n):
+        how = rng.choice(["json", "digest", "padding", "chars"])
+        m = max_inner(n)
+        if how == "json" and m >= 2:
+            bad = _json_bad_balanced(rng, m) or rng.choice([t for t in _BAD_LINE_ONLY if len(t) <= m] or [b"}{"])
+            if len(bad) <= m:
+                return token(bad)
+        t = valid(rng, n)
+        if t is None:
+            return bytes(rng.choice(LOW) for _ in range(min(n, 1 + rng.randrange(5)))) or None
+        if how == "digest" and checksum and len(t) > 8:
+            i = len(t) - 6
+            c = t[i : i + 1]
+            return t[:i] + (b"A" if c != b"A" else b"B") + t[i + 1 :]
+        if how == "padding":
+            return t.rstrip(b"=")[:-1] or b"a"
+        return t[: max(1, len(t) // 2)]
+
+    def big(rng, n):
+        return _units_payload(rng, _sep_units(UP, sep), n)
+
+    fam = _SepFamily(sep, limit, valid, undecodable, big, min_len=48 if checksum else 4)
+    frames = _gen_sep_frames(world, rng, fam)
+
+    def make():
+        return Base64EncoderSerializer(JSONSerializer(), alphabet=alphabet, checksum=checksum, separator=sep, limit=limit)
+
+    def value_bytes(v):
+        try:
+            return make().serialize(v)
+        except Exception:  # noqa: BLE001
+            return None
+
+    cfg = Framing("separator", make, separator=sep)
+    desc = f"Base64EncoderSerializer(JSONSerializer(), alphabet={alphabet!r}, checksum={checksum}, separator={sep!r}, limit={limit})"
+    return _sep_case("b64", desc, cfg, make, fam, frames, value_bytes)
+
+
+# --------------------------------------------------------------------------------------------------- AutoSeparated subclass
+class BytesFramesSerializer(AutoSeparatedPacketSerializer[bytes, bytes]):
+    """Minimal AutoSeparatedPacketSerializer subclass: packets are the frames themselves; 0xE9 / 0xFF make a frame invalid."""
+
+    __slots__ = ()
+
+    def serialize(self, packet: bytes) -> bytes:
+        return bytes(packet)
+
+    def deserialize(self, data: bytes) -> bytes:
+        if b"\xe9" in data or b"\xff" in data:
+            raise DeserializeError("forbidden byte in frame")
+        return bytes(data)
+
+
+_AUTOSEPS = [b"\n", b"\r\n", b"<>!", b"|", b"::", b"aab", b"\x00", b"\x00\x00\x01", b"aba"]
+
+
+def _gen_autosep(world: World) -> Case:
+    sep = world.pick("separator", _AUTOSEPS)
+    limit = 8 + world.choose("limit", 89)
+    rng = world.sub_rng("filler")
+    good = _sep_units(LOW, sep)
+
+    def valid(rng, n):
+        return _units_payload(rng, good, n) or None
+
+    def undecodable(rng, n):
+        p = bytearray(_units_payload(rng, good, n))
+        if not p:
+            return None
+        p[rng.randrange(len(p))] = rng.choice([0xE9, 0xFF])
+        return bytes(p)
+
+    def big(rng, n):
+        return _units_payload(rng, _sep_units(UP, sep), n)
+
+    # fillers must not be able to re-create the separator
+    low = bytes(b for b in LOW if b not in sep) or b"gh"
+    fam = _SepFamily(sep, limit, valid, undecodable, big, filler_low=low, filler_up=UP)
+    frames = _gen_sep_frames(world, rng, fam)
+
+    def make():
+        return BytesFramesSerializer(sep, limit=limit)
+
+    cfg = Framing("separator", make, separator=sep)
+    return _sep_case("autosep", f"BytesFramesSerializer(separator={sep!r}, limit={limit})", cfg, make, fam, frames, lambda v: bytes(v) if isinstance(v, bytes) else None)
+
+
+# --------------------------------------------------------------------------------------------------- raw JSON
+_JSON_WS = [b" ", b"\n", b"\t", b"\r"]
+
+
+def _gen_jsonraw(world: World) -> Case:
+    limit = 8 + world.choose("limit", 89)
+    rng = world.sub_rng("filler")
+    safe = limit - 2  # leading whitespace + document (+ terminator of a plain value) <= limit - 2
+    nframes = 1 + world.choose("nframes", 8)
+    frames: list[tuple[str, bytes]] = []
+    parts: list[bytes] = []
+    for _ in range(nframes):
+        kind = world.pick("kind", ["valid", "valid", "undecodable", "plain", "valid", "plain-bad"])
+        lead = b"".join(rng.choice(_JSON_WS) for _ in range(world.choose("lead_ws", 3)))
+        room = safe - len(lead)
+        n = 2 + world.choose("len", max(1, room - 1))
+        if world.chance("at_edge", 1, 4):
+            n = room
+        term = b""
+        if kind == "valid":
+            doc = _json_text(rng, n)
+        elif kind == "undecodable":
+            doc = _json_bad_balanced(rng, n)
+        elif kind == "plain":
+            doc = rng.choice([b"1", b"-12", b"null", b"true", b"3.5", b"false", b"1e3", b"123456789"])
+            term = rng.choice(_JSON_WS)
+        else:
+            doc = rng.choice([b"nul", b"12a", b"tru", b"-", b"1.2.3", b"NaN0"])
+            term = rng.choice(_JSON_WS)
+        if doc is None or len(lead) + len(doc) + len(term) > safe:
+            kind, lead, doc, term = "valid", b"", rng.choice([b"[]", b"{}", b'""']), b""
+        frames.append((kind, doc))
+        parts.append(lead + doc + term)
+    tail_ws = b"".join(rng.choice(_JSON_WS) for _ in range(world.choose("tail_ws", 3)))
+    stream = b"".join(parts) + tail_ws
+
+    def make():
+        return JSONSerializer(limit=limit, use_lines=False)
+
+    cfg = Framing("json-raw", make)
+    structural: list[int] = []
+    pos = 0
+    for part in parts:
+        pos += len(part)
+        structural.append(pos)
+    structural.extend(i + 1 for i, b in enumerate(stream) if b == 0x5C or b == 0x22 or b >= 0x80)
+    return Case(
+        "jsonraw",
+        f"JSONSerializer(limit={limit}, use_lines=False)",
+        cfg,
+        make,
+        stream,
+        frames,
+        [False] * len(frames),
+        _json_value_bytes,
+        structural[:64],
+        limit=limit,
+        ws_leftover_ok=True,
+    )
+
+
+# --------------------------------------------------------------------------------------------------- fixed size
+class FixedBlockSerializer(FixedSizePacketSerializer[bytes, bytes]):
+    """Minimal FixedSizePacketSerializer subclass: a block containing 0xE9 or starting with 0xFF is invalid."""
+
+    __slots__ = ()
+
+    def serialize(self, packet: bytes) -> bytes:
+        return bytes(packet)
+
+    def deserialize(self, data: bytes) -> bytes:
+        if b"\xe9" in data or data[:1] == b"\xff":
+            raise DeserializeError("invalid block")
+        return bytes(data)
+
+
+class Rec(NamedTuple):
+    name: str
+    n: int
+    flag: int
+
+
+def _gen_fixed(world: World) -> Case:
+    variant = world.pick("variant", ["block", "struct", "namedtuple"])
+    rng = world.sub_rng("filler")
+    if variant == "block":
+        size = 1 + world.choose("size", 12)
+
+        def make():
+            return FixedBlockSerializer(size)
+
+        desc = f"FixedBlockSerializer(size={size})"
+        bad_span = (0, size)
+    elif variant == "struct":
+        fmt = world.pick("format", ["!Hb", "<I", ">3sx?", "!5s", "<hhB"])
+
+        def make():
+            return StructSerializer(fmt)
+
+        size = make().packet_size
+        desc = f"StructSerializer({fmt!r})"
+        bad_span = None  # every block decodes
+    else:
+        endian = world.pick("endianness", ["!", "<"])
+        width = 2 + world.choose("name_width", 5)
+
+        def make():
+            return NamedTupleStructSerializer(Rec, {"name": f"{width}s", "n": "H", "flag": "b"}, format_endianness=endian, encoding="utf-8")
+
+        size = make().packet_size
+        desc = f"NamedTupleStructSerializer(Rec, name={width}s n=H flag=b, endianness={endian!r}, utf-8)"
+        bad_span = (0, width)
+    nframes = 1 + world.choose("nframes", 8)
+    frames: list[tuple[str, bytes]] = []
+    for _ in range(nframes):
+        kind = world.pick("kind", ["valid", "valid", "undecodable"])
+        block = bytearray(rng.choice(LOW) for _ in range(size))
+        if variant == "namedtuple" and rng.randrange(3) == 0:
+            k = rng.randrange(width + 1)
+            block[k:width] = b"\0" * (width - k)  # padded string field
+        if kind == "undecodable" and bad_span is not None:
+            block[rng.randrange(bad_span[0], bad_span[1])] = 0xE9
+        frames.append((kind, bytes(block)))
+    stream = b"".join(p for _, p in frames)
+    structural = [k * size for k in range(1, nframes)]
+    cfg = Framing("fixed", make, size=size)
+    return Case("fixed", desc, cfg, make, stream, frames, [False] * nframes, lambda v: None, structural)
+
+
+# =================================================================================================== the harness
+GENERATORS: dict[str, Callable[[World], Case]] = {
+    "line": _gen_line,
+    "jsonl": _gen_jsonl,
+    "b64": _gen_b64,
+    "autosep": _gen_autosep,
+    "jsonraw": _gen_jsonraw,
+    "fixed": _gen_fixed,
+}
+
+
+def _short(out) -> list:
+    return [(o[0], o[1]) if o[0] != "crash" else o for o in out]
+
+
+def run_case(world: World, family: str, path: str) -> None:
+    case = GENERATORS[family](world)
+    stream = case.stream
+    # the model's own view of the stream
+    try:
+        mframes, tail = split_frames(case.cfg, stream)
+        ref = reference_outcomes(case.cfg, stream)
+    except NoFrameStructure as exc:
+        raise HarnessError(f"generator left the model's domain at {exc.pos}: {stream!r}") from None
+    if len(mframes) != len(case.frames) or [f.payload(stream) for f in mframes] != [p for _, p in case.frames]:
+        raise HarnessError(f"model split {[f.payload(stream) for f in mframes]} != generated {case.frames} ({case.desc})")
+    if any(o[0] == "crash" for o in ref):
+        raise HarnessError(f"one-shot reference crashed on a generated frame: {ref} {case.frames}")
+
+    cuts = gen_cuts(world, len(stream), case.structural)
+    chunks = cuts_to_chunks(stream, cuts)
+    wrap, make_driver = PATHS[path]
+    drv = make_driver(wrap(case.make()), world)
     out = run_stream(drv, chunks)
-    world.log("run", path, len(frames), len(chunks), tuple(o[0] for o in out))
-    world.notes.update(serializer=f"StringLineSerializer(sep={sep!r},limit={limit},keep_end={keep_end})", frames=[(k, p.decode('latin1')) for k, p in frames], chunks=[len(c) for c in chunks][:40], path=path)
+
+    world.log("run", path, family, len(case.frames), len(chunks), tuple(o[0] for o in out))
+    world.notes.update(
+        serializer=case.desc,
+        frames=[(k, p.decode("latin1")) for k, p in case.frames],
+        chunks=[len(c) for c in chunks][:40],
+        path=path,
+    )
     world.progress(sum(1 for o in out if o[0] == "pkt"))
-    site = f"line/{path}"
+    if any(case.unsafe):
+        world.probe("stream-with-unsafe-frame")
+    if any(o == ("err", LIMIT_ERROR) for o in out):
+        world.probe("limit-error-raised")
+    if any(o[0] == "err" and o[1] != LIMIT_ERROR for o in out):
+        world.probe("parse-error-raised")
+
+    site = f"{family}/{path}"
+    sizes = [len(c) for c in chunks]
+    ctx = f"{case.desc}\n frames={case.frames}\n stream={stream!r}\n chunk sizes={sizes}\n got {_short(out)}\n ref {ref}"
     for o in out:
         if o[0] == "crash":
-            raise Violation("no-crash", f"{o} escaped; frames={frames} chunks={[len(c) for c in chunks]}", key=f"C02/{site}/crash/{o[1]}")
-    all_safe = all(k not in ("band", "oversized") for k, _ in frames)
-    if all_safe:
-        if out != ref:
-            raise Violation("safe-frames-equal-reference", f"sep={sep!r} limit={limit} keep_end={keep_end} frames={frames} chunks={chunks}\n got {out}\n ref {ref}", key=f"C02/{site}/safe-equal")
-        if drv.pending() != 0:
-            raise Violation("no-leftover", f"{drv.pending()} bytes held after a stream of complete frames: {drv.held_bytes()!r}", key=f"C02/{site}/leftover")
+            raise Violation("no-crash", f"{o} escaped; {ctx}", key=f"C02/{site}/crash/{o[1]}")
+    if not any(case.unsafe):
+        if not same_outcomes(out, ref):
+            raise Violation("safe-frames-equal-reference", ctx, key=f"C02/{site}/safe-equal")
+        held = drv.held_bytes() if drv.pending() else b""
+        if held and not (case.ws_leftover_ok and not held.strip(b" \t\n\r")):
+            raise Violation("no-leftover", f"{len(held)} bytes held after a stream of complete frames: {held!r}; {ctx}", key=f"C02/{site}/leftover")
     else:
-        if not _match(out, 0, frames, ref, 0, sep):
-            raise Violation("resume-after-rejected-frame", f"sep={sep!r} limit={limit} keep_end={keep_end} frames={frames} chunks={chunks}\n got {out}\n ref {ref}", key=f"C02/{site}/resume")
+        sep = case.cfg.separator
+        own = [stream[f.start : f.term_end] for f in mframes]
+
+        def junk_ok(k: int, o: tuple) -> bool:
+            if o[0] == "err":
+                return True
+            if o[0] != "pkt":
+                return False
+            vb = case.value_bytes(o[1])
+            return vb is not None and vb in own[k]
+
+        if not explains(out, ref, case.unsafe, junk_ok):
+            raise Violation("resume-after-rejected-frame", f"unsafe={case.unsafe} sep={sep!r}\n {ctx}", key=f"C02/{site}/resume")
+
+
+def _harness(family: str, path: str, weight: int = 1) -> Harness:
+    return Harness(f"{family}-{path}", lambda w: run_case(w, family, path), weight=weight)
 
 
 HARNESSES = [
-    Harness("line-copy", lambda w: _h_line(w, "copy")),
-    Harness("line-fill", lambda w: _h_line(w, "fill")),
+    _harness("line", "copy", 2),
+    _harness("line", "fill", 2),
+    _harness("jsonl", "copy"),
+    _harness("b64", "copy"),
+    _harness("b64", "fill"),
+    _harness("autosep", "copy", 2),
+    _harness("autosep", "fill", 2),
+    _harness("jsonraw", "copy", 2),
+    _harness("fixed", "copy"),
+    _harness("fixed", "fill"),
 ]
